@@ -975,9 +975,15 @@ def exponential_binning(
         raise ValueError(
             f"Cannot create exponential bins for the range {10.0**range[0]} to {10.0**range[1]}."
         )
-    return ExponentialBinning(
+    binning = ExponentialBinning(
         log_min=range[0], log_width=log_width, bin_count=bin_count, **kwargs
     )
+    if not is_rising(binning.bins):
+        # The range is too narrow for so many bins: neighbouring edges collapse to the same float
+        raise ValueError(
+            f"Cannot create {bin_count} exponential bins for the range {10.0**range[0]} to {10.0**range[1]}."
+        )
+    return binning
 
 
 with suppress(ImportError):
